@@ -398,9 +398,16 @@ theorem eqnOf_of_mem : ∀ {eqs : List Eqn} {e : Eqn}, (eqs.map (·.lhs)).Nodup 
         rw [hne]
         exact eqnOf_of_mem hnd.2 h
 
-/-- the references of `v`'s equation, before / after number substitution -/
+/-- the references of `v`'s equation, before / after number substitution (`Eqn.numRefs`: the substitution happens
+    only in an equation that holds a `Quantity`) -/
 def DepOn (eqs : List Eqn) (strip : Bool) (u v : Node) : Prop :=
-  ∃ e ∈ eqs, e.lhs = v ∧ u ∈ e.refs ∧ (strip = true → u ∈ e.refsNum)
+  ∃ e ∈ eqs, e.lhs = v ∧ u ∈ e.refs ∧ (strip = true → u ∈ e.numRefs)
+
+/-- for a reference of the equation, surviving the pruning of `graph_with_sympy_numbers` is being in `numRefs` -/
+theorem keep_iff_numRefs {e : Eqn} {u : Node} (hr : u ∈ e.refs) :
+    (!e.hasQ || decide (u ∈ e.refsNum)) = true ↔ u ∈ e.numRefs := by
+  unfold Eqn.numRefs
+  cases e.hasQ <;> simp [hr]
 
 theorem DepOn.weaken {eqs : List Eqn} {strip : Bool} {u v : Node} (h : DepOn eqs strip u v) : DepOn eqs false u v := by
   obtain ⟨e, he, h1, h2, _⟩ := h
@@ -423,12 +430,14 @@ theorem graphFor_edges {eqs : List Eqn} {strip : Bool} {g : Graph} (hnd : (eqs.m
         refine ⟨e, he, hl, hr, ?_⟩
         have := eqnOf_of_mem hnd he
         rw [hl] at this
-        simpa [keepEdge, this] using hk
+        simp only [keepEdge, this] at hk
+        exact (keep_iff_numRefs hr).mp hk
       · rintro ⟨e, he, hl, hr, hn⟩
         refine ⟨⟨e, he, hl, hr⟩, ?_⟩
         have := eqnOf_of_mem hnd he
         rw [hl] at this
-        simpa [keepEdge, this] using hn
+        simp only [keepEdge, this]
+        exact (keep_iff_numRefs hr).mpr hn
 
 theorem graphFor_wf {eqs : List Eqn} {strip : Bool} {g : Graph} (hwf : WF g) : WF (graphFor eqs strip g) := by
   cases strip with
